@@ -11,6 +11,7 @@ import AgVerif.Proof.Sweep
 import AgVerif.Proof.SweepSound
 import AgVerif.Proof.SweepAssembled
 import AgVerif.Proof.SweepLookup
+import AgVerif.Proof.SweepClosure
 namespace AgVerif.C02
 open AgVerif.Insn AgVerif.Sweep AgVerif.Gen
 
@@ -161,6 +162,25 @@ theorem get_ins_off_spec (odex : Bool) (size : Nat) (bs : List Nat) :
     rw [hlay]; exact (offToPos_hit prog n hpos' hn).2
   · show getInsOff (sweep odex size bs 0).1 _ = _
     rw [hlay]; exact (offToPos_miss prog off h).2
+
+/-- `Valid` is not narrower than what disassembly can produce: the item list of every non-ODEX sweep, over arbitrary
+    bytes, is a valid program.  With `sweep_assembled`: the valid programs are exactly the possible sweep results. -/
+theorem sweep_yields_valid (size : Nat) (bs : List Nat) (idx : Nat) (hb : AllBytes bs) :
+    Valid ((sweep false size bs idx).1.map Prod.snd) = true :=
+  sweep_valid size bs idx hb
+
+/-- Disassemble-then-assemble, arbitrary bytes, ODEX or not: the items a sweep from offset 0 yields re-assemble
+    (concatenated `get_raw()`) to exactly the code bytes consumed — the first `totalLen` bytes of the buffer. -/
+theorem disassemble_then_assemble (odex : Bool) (size : Nat) (bs : List Nat) (hb : AllBytes bs) :
+    assemble ((sweep odex size bs 0).1.map Prod.snd) =
+      some (bs.take (totalLen ((sweep odex size bs 0).1.map Prod.snd))) :=
+  assemble_sweep odex size bs hb
+
+/-- A sweep that ends normally consumed exactly the declared code: the item lengths sum to `min(2·size, len) - idx`. -/
+theorem sweep_done_consumes_all (odex : Bool) (size : Nat) (bs : List Nat) (idx : Nat)
+    (hidx : idx ≤ maxIdxOf size bs) (hd : (sweep odex size bs idx).2 = .done) :
+    idx + totalLen ((sweep odex size bs idx).1.map Prod.snd) = maxIdxOf size bs :=
+  sweepFrom_done_total odex bs (maxIdxOf size bs) _ idx (Nat.le_refl _) hidx hd
 
 /-! ### non-vacuity and the repaired witnesses -/
 
